@@ -570,3 +570,308 @@ func init() {
 		},
 	})
 }
+
+func init() {
+	register(&Rule{
+		ID: "C07.R16", Props: []string{"C07"}, Min: 1,
+		Doc: "a probe for a layout file asks whether the file is there, nothing else: Loader.Stat calls fs.Stat and reads no file (no loadFragment, ReadFile, Open, no front-matter parse). The callers — the default-layout probe of Render and the `next to the current file` probe of resolveLayoutPath — take `no error` for `choose this file`: a probe that loads reports a layout that exists but does not parse as absent, and the page is written bare (or wrapped by another layout) with a nil error instead of failing on the layout it names",
+		Run: func(p *Prog, c *Ctx) {
+			fn := p.MustFn("(*vuego.Loader).Stat")
+			stat, bad := false, ""
+			for _, site := range callsIn(fn) {
+				nm := calleeName(site.Common())
+				if nm == "io/fs.Stat" || nm == "fs.Stat" || strings.HasSuffix(nm, ".Stat") {
+					stat = true
+					continue
+				}
+				if callee := site.Common().StaticCallee(); callee != nil && inModule(callee) && len(callee.Blocks) > 0 {
+					bad = nm + " at " + p.instrPos(site)
+				}
+				if strings.Contains(nm, "ReadFile") || strings.HasSuffix(nm, ".Open") || strings.Contains(nm, "ReadAll") {
+					bad = nm + " at " + p.instrPos(site)
+				}
+			}
+			if !stat && bad == "" {
+				undecided("Loader.Stat no longer asks fs.Stat")
+			}
+			c.check(bad == "", "Loader.Stat: an existence probe reads nothing", p.pos(fn.Pos()), "fs.Stat only", "Loader.Stat calls "+bad+": the probe now fails for a file that exists but does not load, and its callers take that for `no such layout` — the layout the page names is skipped silently")
+		},
+	})
+
+	register(&Rule{
+		ID: "C04.R18", Props: []string{"C04", "C17", "C05"}, Min: 2,
+		Doc: "the pool of scope maps belongs to the stack: mapPool is used by methods of *Stack only (Push takes an empty map out, Pop empties it and puts it back). Push(nil) relies on what comes out being empty; a map that another function borrows and returns with entries in it becomes the next loop iteration's scope with those entries as variables",
+		Run: func(p *Prog, c *Ctx) {
+			n := 0
+			for _, fn := range p.liveFuncs() {
+				eachInstr(fn, func(in ssa.Instruction) {
+					for _, op := range in.Operands(nil) {
+						g, ok := (*op).(*ssa.Global)
+						if !ok || g.Pkg == nil || g.Pkg.Pkg.Path() != modPath || g.Name() != "mapPool" {
+							continue
+						}
+						n++
+						root := rootFunc(fn)
+						c.check(typeShort(recvType(root)) == "*vuego.Stack" || root.Name() == "init", fmt.Sprintf("%s: mapPool#%d is the stack's", shortName(fn), n), p.instrPos(in), "a method of *Stack", shortName(fn)+" uses the stack's pool of scope maps: what it puts back is taken for empty by the next Push(nil) — a loop iteration starts with the leftovers as variables")
+					}
+				})
+			}
+			if n == 0 {
+				undecided("the module no longer has a mapPool")
+			}
+		},
+	})
+
+	register(&Rule{
+		ID: "C17.R25", Props: []string{"C17", "C08"}, Min: 1,
+		Doc: "the root data answers whenever the scopes do not: in Stack.Lookup the fallback to the root data is decided by the scopes' misses and by whether there is root data — not by how much the scopes hold (no len() of a scope map in Lookup). EnvMap lists the root struct's fields unconditionally; a fallback that only runs while the root scope is empty makes `{{ Title }}` disappear as soon as anything is assigned, while EnvMap (v-if) still has it",
+		Run: func(p *Prog, c *Ctx) {
+			fn := p.MustFn("(*vuego.Stack).Lookup")
+			fallback := false
+			for _, site := range callsIn(fn) {
+				if strings.HasSuffix(calleeName(site.Common()), "reflect.ResolveValue") {
+					fallback = true
+				}
+			}
+			if !fallback {
+				undecided("Lookup no longer falls back to the root data through ResolveValue")
+			}
+			bad := ""
+			for _, site := range callsIn(fn) {
+				if b, ok := site.Common().Value.(*ssa.Builtin); ok && b.Name() == "len" && len(site.Common().Args) == 1 {
+					if _, isMap := site.Common().Args[0].Type().Underlying().(*types.Map); isMap {
+						bad = p.instrPos(site)
+					}
+				}
+			}
+			c.check(bad == "", "Lookup: the fallback does not depend on the size of a scope", p.pos(fn.Pos()), "no len(scope map)", "Lookup measures a scope map at "+bad+": whether a name is answered from the root data depends on what else has been bound — a struct field that resolved before an unrelated Set no longer does, while EnvMap still lists it")
+		},
+	})
+
+	register(&Rule{
+		ID: "C06.R19", Props: []string{"C06"}, Min: 1,
+		Doc: "a slot is looked up under its name first: SlotScope.GetSlot reads the slot map with the name it was given, itself (the lower-cased spelling is the fallback for names the HTML parser folded). The parser folds ASCII letters only; strings.ToLower folds every letter: content stored under `#Überschrift` is not found under `überschrift`, and the slot renders its fallback although content was supplied",
+		Run: func(p *Prog, c *Ctx) {
+			fn := p.MustFn("(*vuego.SlotScope).GetSlot")
+			var name *ssa.Parameter
+			for _, prm := range fn.Params {
+				if isString(prm.Type()) {
+					name = prm
+				}
+			}
+			lookups, exact := 0, 0
+			eachInstr(fn, func(in ssa.Instruction) {
+				if lk, ok := in.(*ssa.Lookup); ok {
+					if _, isMap := lk.X.Type().Underlying().(*types.Map); isMap {
+						lookups++
+						if name != nil && lk.Index == ssa.Value(name) {
+							exact++
+						}
+					}
+				}
+			})
+			if lookups == 0 {
+				undecided("GetSlot reads no map")
+			}
+			c.check(exact > 0, "GetSlot: the name as given is tried", p.pos(fn.Pos()), fmt.Sprintf("%d of %d lookups use the parameter itself", exact, lookups), "GetSlot looks the slot up under a derived spelling only (lower-cased): a name with a non-ASCII capital, which the HTML parser left as it was when the content was stored, is never found — the fallback is rendered although content was supplied")
+		},
+	})
+
+	register(&Rule{
+		ID: "C13.R32", Props: []string{"C13", "C17"}, Min: 1,
+		Doc: "a path means member access in every position: Stack.Resolve hands the *whole* expression to Lookup only on the way on which it has no dot and no bracket. A data key that is spelled like a path (`user.name`) is not a variable: looked up first, it shadows user → name in {{ }}, bound attributes and pipe heads, while the expression evaluator (v-if, larger expressions) still does member access — one expression, two values",
+		Run: func(p *Prog, c *Ctx) {
+			fn := p.MustFn("(*vuego.Stack).Resolve")
+			n := 0
+			for _, site := range callsIn(fn) {
+				if calleeName(site.Common()) != "(*vuego.Stack).Lookup" {
+					continue
+				}
+				args := callArgs(site.Common())
+				if len(args) == 0 {
+					continue
+				}
+				whole := false
+				for _, o := range p.origins(args[len(args)-1], OriginOpts{ThroughCall: func(cl *ssa.Call) []ssa.Value {
+					if strings.HasPrefix(calleeName(&cl.Call), "strings.Trim") || calleeName(&cl.Call) == "helpers.TrimHTMLSpace" {
+						return cl.Call.Args[:1]
+					}
+					return nil
+				}}) {
+					if prm, ok := o.(*ssa.Parameter); ok && prm.Parent() == fn && isString(prm.Type()) {
+						whole = true
+					}
+				}
+				if !whole {
+					continue
+				}
+				n++
+				plain := guardedBy(site.Block(), func(cnd ssa.Value, want bool) bool {
+					cl := isCallNamed(cnd, "strings.ContainsAny", "strings.IndexAny", "strings.ContainsRune", "strings.IndexByte", "strings.Contains")
+					if cl != nil {
+						return !want
+					}
+					// strings.IndexAny(expr, ".[") < 0
+					op, x, y, ok := relationOnEdge(cnd, want)
+					if ok && isCallNamed(x, "strings.IndexAny", "strings.IndexByte", "strings.Index") != nil {
+						if k, isK := constInt(y); isK && ((op == token.LSS && k == 0) || (op == token.EQL && k == -1) || (op == token.LEQ && k == -1)) {
+							return true
+						}
+					}
+					return false
+				})
+				c.check(plain, fmt.Sprintf("Resolve: the whole expression#%d is looked up only when it is a plain name", n), p.instrPos(site), "under `no dot, no bracket`", "Resolve looks the whole expression up as a variable name on a way on which it may contain a dot or a bracket: a key spelled like a path shadows real member access in the positions that resolve paths, and the evaluator disagrees")
+			}
+			if n == 0 {
+				undecided("Resolve never hands its expression to Lookup")
+			}
+		},
+	})
+
+	register(&Rule{
+		ID: "C14.R25", Props: []string{"C14"}, Min: 1,
+		Doc: "a style value is cut into declarations by the scanner that knows quotes and parentheses, on every way: splitStyleDecls (and what it calls) uses no strings.Split / SplitN / FieldsFunc on `;`. A shortcut that splits plainly when the value has no parenthesis cuts `--sep:'; '` in two: the static declaration that should be kept as it stands comes out truncated whenever the style is re-parsed for a merge or v-show",
+		Run: func(p *Prog, c *Ctx) {
+			fn := p.MustFn("vuego.splitStyleDecls")
+			bad := ""
+			scans := 0
+			walkFuncTree(fn, func(f *ssa.Function) {
+				for _, site := range callsIn(f) {
+					nm := calleeName(site.Common())
+					if strings.HasPrefix(nm, "strings.Split") || nm == "strings.FieldsFunc" || nm == "strings.Cut" {
+						for _, a := range site.Common().Args {
+							if s, ok := constString(a); ok && strings.Contains(s, ";") {
+								bad = nm + " at " + p.instrPos(site)
+							}
+						}
+						if nm == "strings.FieldsFunc" {
+							bad = nm + " at " + p.instrPos(site)
+						}
+					}
+				}
+			})
+			if have := comparedChars(fn); have['\''] || have['"'] {
+				scans++
+			}
+			if scans == 0 {
+				undecided("splitStyleDecls no longer compares characters with a quote")
+			}
+			c.check(bad == "", "splitStyleDecls: no plain split on `;`", p.pos(fn.Pos()), "the quote-aware scan is the only way", "splitStyleDecls calls "+bad+": on that way a semicolon inside a quoted string ends the declaration — `--sep:'; '` is cut in two and the static style is changed by the merge")
+		},
+	})
+
+	register(&Rule{
+		ID: "C16.R16", Props: []string{"C16", "C11"}, Min: 1,
+		Doc: "a component's v-once ids are made from the file that was loaded: in evalInclude the name handed to assignSeenAttrs (the prefix of every v-once id of the component) and to the include chain (WithTemplate) is the same value the loader was asked for. If the ids come from the attribute as written (`components/{{ k }}.vuego`) while the file comes from its evaluated form, every component reached through that tag shares one set of ids: distinct components suppress each other's v-once elements",
+		Run: func(p *Prog, c *Ctx) {
+			fn := p.MustFn("(*vuego.Vue).evalInclude")
+			var loaded []ssa.Value
+			for _, site := range callsIn(fn) {
+				nm := calleeName(site.Common())
+				if nm == "(*vuego.Loader).loadFragment" || nm == "(*vuego.Vue).loadCachedWithFrontMatter" || nm == "(*vuego.Loader).LoadFragment" {
+					if a := callArgs(site.Common()); len(a) > 0 {
+						loaded = append(loaded, a[len(a)-1])
+					}
+				}
+			}
+			if len(loaded) == 0 {
+				undecided("evalInclude loads no file through the loader")
+			}
+			same := func(v ssa.Value) bool {
+				for _, l := range loaded {
+					if l == v {
+						return true
+					}
+				}
+				return false
+			}
+			n := 0
+			for _, site := range callsIn(fn) {
+				nm := calleeName(site.Common())
+				if nm != "vuego.assignSeenAttrs" && nm != "(vuego.VueContext).WithTemplate" {
+					continue
+				}
+				a := callArgs(site.Common())
+				var nameArg ssa.Value
+				for _, x := range a {
+					if isString(x.Type()) {
+						nameArg = x
+						break
+					}
+				}
+				if nameArg == nil {
+					continue
+				}
+				n++
+				c.check(same(nameArg), fmt.Sprintf("evalInclude: %s#%d gets the name that was loaded", nm, n), p.instrPos(site), "the loader's argument itself", nm+" is given another name than the loader: the component's v-once ids (and its place in the include chain) are made from a spelling that several files share or that one file has twice — v-once elements of distinct components suppress each other, or one is emitted twice")
+			}
+			if n == 0 {
+				undecided("evalInclude names the component nowhere")
+			}
+		},
+	})
+
+	register(&Rule{
+		ID: "C19.R24", Props: []string{"C19"}, Min: 1,
+		Doc: "the formatter writes the attributes the element has: renderOpenTag ranges over the node's Attr field itself — not over a list derived from it. A `tidied` list that drops repeats by Key alone loses `xlink:href` next to `href` on an SVG <use>: two attributes of different namespaces that the parser keeps apart",
+		Run: func(p *Prog, c *Ctx) {
+			fn := p.MustFn("(*formatter.Formatter).renderOpenTag")
+			var node *ssa.Parameter
+			for _, prm := range fn.Params {
+				if isNamed(prm.Type(), "golang.org/x/net/html", "Node") {
+					node = prm
+				}
+			}
+			if node == nil {
+				undecided("renderOpenTag has no node parameter")
+			}
+			// the loads of an element of a slice: whose slice?
+			n, direct := 0, 0
+			bad := ""
+			eachInstr(fn, func(in ssa.Instruction) {
+				ia, ok := in.(*ssa.IndexAddr)
+				if !ok || !isNamed(ia.Type(), "golang.org/x/net/html", "Attribute") {
+					return
+				}
+				n++
+				ok2 := false
+				for _, o := range p.origins(ia.X, OriginOpts{}) {
+					if f := loadedField(o); f != nil && fieldIs(f, "Attr") {
+						ok2 = true
+					}
+				}
+				if ok2 {
+					direct++
+				} else {
+					bad = p.instrPos(ia)
+				}
+			})
+			if n == 0 {
+				undecided("renderOpenTag indexes no attribute list")
+			}
+			c.check(bad == "", "renderOpenTag: the attributes written are the node's", p.pos(fn.Pos()), fmt.Sprintf("%d attribute reads, all from n.Attr", direct), "renderOpenTag reads attributes at "+bad+" from a list that is not the node's Attr field: what is written is a selection — an attribute the parser kept (another namespace, a repeat) is missing from the formatted output, which no longer parses to the same attributes")
+		},
+	})
+
+	register(&Rule{
+		ID: "C20.R20", Props: []string{"C20"}, Min: 1,
+		Doc: "a destination is written the way the reference renderer writes it: linkDestination percent-encodes through util.URLEscape with reference resolution switched on (its second argument is the constant true). goldmark keeps a destination as source bytes: without the resolution `[a](/p\\_q)` gets `%5C_` and `&amp;` in a query becomes `&amp;amp;`",
+		Run: func(p *Prog, c *Ctx) {
+			fn := p.MustFn("markdown.linkDestination")
+			n := 0
+			walkFuncTree(fn, func(f *ssa.Function) {
+				for _, site := range callsIn(f) {
+					if !strings.HasSuffix(calleeName(site.Common()), "util.URLEscape") || len(site.Common().Args) != 2 {
+						continue
+					}
+					n++
+					k, ok := site.Common().Args[1].(*ssa.Const)
+					c.check(ok && k.Value != nil && k.Value.String() == "true", fmt.Sprintf("linkDestination: URLEscape#%d resolves references", n), p.instrPos(site), "resolveReference = true", "the destination is percent-encoded without resolving backslash escapes and character references first: `\\_` is written as %5C_, `&amp;` as &amp;amp; — another URL than the reference renderer's")
+				}
+			})
+			if n == 0 {
+				undecided("linkDestination no longer goes through util.URLEscape")
+			}
+		},
+	})
+}
